@@ -20,7 +20,7 @@ from checks import common
 
 ID = 'C11'
 LEVEL = 'exploration'
-TIERS = {"quick": 20000, "thorough": 1500000}
+TIERS = {"quick": 20000, "thorough": 1200000}
 BUDGET = {'quick': 150, 'thorough': 1500}
 RULE = ('seeded plans, two parts. A: a byte string (valid stream of 1-3 encodings, a corrupted one, or a wide/deep/over-threshold '
         'container) decoded one-shot and by full StreamingDecoder iteration through 11 substrate kinds with a per-run drop-threshold '
